@@ -17,6 +17,7 @@ import (
 	"net/http/httptest"
 	"net/url"
 	"sync"
+	"sync/atomic"
 	"time"
 
 	"github.com/influxdata/influxdb/v2"
@@ -33,7 +34,8 @@ const (
 // response is one scripted answer of the remote (plus the state of the configuration store for
 // that attempt: the writer re-reads the configuration on every attempt).
 type response struct {
-	Kind       string  `json:"kind"`                  // "status" | "reset" | "cfgerr" | "stall"
+	Kind       string  `json:"kind"`                  // "status" | "reset" | "cfgerr" | "stall" | "abort"
+	AbortWhen  string  `json:"abort_when,omitempty"`  // Kind=="abort": the replication is closed "before" the write starts | while it is "inflight"
 	Status     int     `json:"status,omitempty"`      // for Kind=="status"
 	RetryAfter *string `json:"retry_after,omitempty"` // Retry-After header, when non-nil
 	Body       string  `json:"body,omitempty"`        // "", "json", "text"
@@ -55,6 +57,7 @@ type remoteT struct {
 	armed   bool
 	reqs    []seenReq
 	release chan struct{} // closed to let stalled handlers go
+	seen    chan struct{} // signalled (non-blocking) whenever a request has been received completely
 
 	tcpOnce sync.Once
 	tcp     *httptest.Server
@@ -67,7 +70,15 @@ func (r *remoteT) arm(resp response) {
 	r.cur = resp
 	r.armed = true
 	r.reqs = nil
+	r.seen = make(chan struct{}, 8)
 	r.mu.Unlock()
+}
+
+// seenCh is the channel that is signalled when the remote has received a request since arm.
+func (r *remoteT) seenCh() <-chan struct{} {
+	r.mu.Lock()
+	defer r.mu.Unlock()
+	return r.seen
 }
 
 // take returns the requests seen since arm and disarms.
@@ -87,6 +98,12 @@ func (r *remoteT) ServeHTTP(w http.ResponseWriter, req *http.Request) {
 	r.reqs = append(r.reqs, seenReq{Method: req.Method, Path: req.URL.Path, Query: req.URL.Query(),
 		Header: req.Header.Clone(), Body: body, Err: err})
 	release := r.release
+	if r.seen != nil {
+		select {
+		case r.seen <- struct{}{}:
+		default:
+		}
+	}
 	r.mu.Unlock()
 
 	// one connection per request: PostWrite never reuses its transport, an idle keep-alive
@@ -94,6 +111,21 @@ func (r *remoteT) ServeHTTP(w http.ResponseWriter, req *http.Request) {
 	w.Header().Set("Connection", "close")
 	switch resp.Kind {
 	case "reset":
+		if hj, ok := w.(http.Hijacker); ok {
+			if c, _, err := hj.Hijack(); err == nil {
+				c.Close()
+				return
+			}
+		}
+		panic(http.ErrAbortHandler)
+	case "abort":
+		// the remote has the request but never answers it: it waits for the client to give up
+		// (the replication was closed); a client that does not give up gets its connection cut
+		select {
+		case <-release:
+		case <-req.Context().Done():
+		case <-time.After(10 * time.Second):
+		}
 		if hj, ok := w.(http.Hijacker); ok {
 			if c, _, err := hj.Hijack(); err == nil {
 				c.Close()
@@ -146,6 +178,82 @@ func (memAddr) String() string  { return memHost + ":80" }
 type memListener struct {
 	ch     chan net.Conn
 	closed chan struct{}
+	mu     sync.Mutex
+	live   map[*memConnState]struct{} // connections dialled and not yet closed by the server side
+	freed  chan struct{}              // signalled (non-blocking) when a connection leaves live
+}
+
+// memConnState is shared by the two ends of one in-memory connection.
+type memConnState struct {
+	used atomic.Bool // the client has started to write a request on it
+	srv  *memSrvConn
+}
+
+// memCliConn is the client end: it notes the first write BEFORE any byte can reach the server.
+type memCliConn struct {
+	net.Conn
+	st *memConnState
+}
+
+func (c *memCliConn) Write(b []byte) (int, error) {
+	c.st.used.Store(true)
+	return c.Conn.Write(b)
+}
+
+// memSrvConn is the server end; Close (by the http.Server or by a handler that hijacked it) ends
+// the connection's life for memListener.live.
+type memSrvConn struct {
+	net.Conn
+	once sync.Once
+	st   *memConnState
+	l    *memListener
+}
+
+func (c *memSrvConn) Close() error {
+	c.once.Do(func() {
+		c.l.mu.Lock()
+		delete(c.l.live, c.st)
+		c.l.mu.Unlock()
+		select {
+		case c.l.freed <- struct{}{}:
+		default:
+		}
+	})
+	return c.Conn.Close()
+}
+
+// quiesce is called after a write that was cut short has returned: the request (or a part of it)
+// can still be on its way to the handler. It waits until the server side has finished with every
+// connection a request was started on, and closes the ones that were dialled but never used
+// (the transport parks those in the idle pool of a client nobody will use again).
+func (l *memListener) quiesce(max time.Duration) bool {
+	deadline := time.Now().Add(max)
+	for {
+		busy := false
+		var idle []*memSrvConn
+		l.mu.Lock()
+		for st := range l.live {
+			if st.used.Load() {
+				busy = true
+			} else {
+				idle = append(idle, st.srv)
+			}
+		}
+		l.mu.Unlock()
+		for _, c := range idle {
+			c.Close()
+		}
+		if !busy {
+			return true
+		}
+		if time.Now().After(deadline) {
+			return false
+		}
+		select {
+		case <-l.freed:
+		case <-time.After(time.Millisecond):
+		}
+	}
 }
 
 func (l *memListener) Accept() (net.Conn, error) {
@@ -159,18 +267,23 @@ func (l *memListener) Accept() (net.Conn, error) {
 func (l *memListener) Close() error   { return nil }
 func (l *memListener) Addr() net.Addr { return memAddr{} }
 func (l *memListener) dial(ctx context.Context) (net.Conn, error) {
-	c, s := net.Pipe()
+	c, p := net.Pipe()
+	st := &memConnState{}
+	st.srv = &memSrvConn{Conn: p, st: st, l: l}
+	l.mu.Lock()
+	l.live[st] = struct{}{}
+	l.mu.Unlock()
 	select {
-	case l.ch <- s:
-		return c, nil
+	case l.ch <- st.srv:
+		return &memCliConn{Conn: c, st: st}, nil
 	case <-ctx.Done():
 		c.Close()
-		s.Close()
+		st.srv.Close()
 		return nil, ctx.Err()
 	}
 }
 
-var memL = &memListener{ch: make(chan net.Conn), closed: make(chan struct{})}
+var memL = &memListener{ch: make(chan net.Conn), closed: make(chan struct{}), live: map[*memConnState]struct{}{}, freed: make(chan struct{}, 1)}
 
 func installMemDial() {
 	tr, ok := http.DefaultTransport.(*http.Transport)
